@@ -17,7 +17,7 @@ claimed = {
  'C01': "one inductive step per vault message (all 11 msgServer methods) from an arbitrary pre-state: custody delta = recorded collateral delta, counter, published totals, no foreign position written",
  'C02': "one inductive step per vault message: supply delta = recorded principal delta, debt coins only to user/collector/burn, exact draw-down fee split",
  'C03': "gate lemma on the real ratio arithmetic (decimal grid, symbolic amounts/prices/MinCr) + per-handler plumbing of the gate's arguments, debt floor and ceiling",
- 'C06': "amm.Deposit / amm.Withdraw contracts, all operands symbolic up to 10^40, plus pool-state grid",
+ 'C06': "amm.Deposit / amm.Withdraw contracts, all operands symbolic up to 10^40, plus pool-state grid; keeper plumbing of a queued withdrawal (formula asked with this pool's reserves / supply / the request's pool coin / the configured withdraw fee rate; exactly its result paid from the pool's reserve; exactly the pool coin burnt; basic pools)",
  'C07': "FinishOrder/FinishMMOrder exact settlement from any live order, an already finished order is never settled again, owner can always cancel outside the placement batch, CancelMMOrder cancels and refunds every indexed order for unrelated symbolic app/pair ids",
  'C04': "one message from an arbitrary pre-state: MsgDeposit / MsgWithdraw queue a request whose recorded coins are exactly what entered the global escrow (pool-coin supply unchanged), Farm / Unfarm move the module account's pool-coin balance by exactly the change of the farmer's recorded (queued + active) amount and never release more than recorded. Not covered: execution and refund of requests, pair escrows of orders (C07 covers order settlement), pool disabling, pool creation",
  'C05': "x/liquidity/amm: one individual fill (FillOrder) from any order state, a buy and a sell filled together (base conserved, quote dust in [0,1]), pro-rata distribution with remainder pass over 2 (quick) / 3 (thorough) orders of one tick on a price grid with symbolic amounts; known finding D21 (sell side can take less than distributed). Not covered: the tick loops of Match / FindMatchableAmountAtSinglePrice, pool order generation, keeper/swap.go application",
@@ -29,8 +29,8 @@ claimed = {
  'C12': "vault, locker, lend/borrow messages and MsgCancelOrder that name a position succeed only for the owner; MsgKillSwitch only for a configured admin; the 20 custom contract-to-chain handlers refuse, on the main and test networks, a sender that is none of the network's governance contracts before the privileged action is reached",
  'C13': "locker books per message, collector net-fee booking for every fee-generating vault message and for the second-generation Dutch close",
  'C14': "vault and locker messages x circuit breaker / emergency shutdown / cool-off; lend/borrow messages that open, enlarge or draw x circuit breaker; second-generation vault liquidation refuses under shutdown or breaker; first-generation surplus / debt auction activators start nothing under breaker or shutdown. Not covered: lend, second-generation auctions, liquidity",
- 'C15': "utils.ApplyFuncIfNoError all-or-nothing with a symbolic fault index; the second-generation vault and borrow sweeps (never panic for any counter / offset / batch size, a failing item neither stops the sweep nor pins it); market.BeginBlocker never panics for any oracle result / asset list. Not covered: the other modules' hooks",
- 'C20': "closed-world genesis round trips (real ExportGenesis + InitGenesis into a second empty store) of collector, locker, auctionsV2, liquidationsV2, x/liquidation and the external reward programs of rewards: records carried over, id counters carried over or at least not colliding with an existing id. Not covered: the other modules and the tables DESIGN.md 0.4 lists as not exported, continuation workloads",
+ 'C15': "utils.ApplyFuncIfNoError all-or-nothing with a symbolic fault index; the second-generation vault and borrow sweeps (never panic for any counter / offset / batch size, a failing item neither stops the sweep nor pins it); each sweep item runs on its own cache context; market.BeginBlocker and bandoracle.BeginBlocker never panic; lend / rewards / esm hooks return even when a part of their work panics. Not covered: liquidity, auction, auctionsV2 and liquidation v1 hooks",
+ 'C20': "closed-world genesis round trips (real ExportGenesis + InitGenesis into a second empty store) of collector, locker, auctionsV2, liquidationsV2, x/liquidation, the external reward programs of rewards and the per-app id counters of liquidity: records carried over, id counters carried over or at least not colliding with an existing id. Not covered: the other modules and the tables DESIGN.md 0.4 lists as not exported, continuation workloads",
  'C17': "one step of the price ring from any state satisfying the ring invariant, window sizes 1..6 (12 thorough): no panic, invariant, exact mean, activation, consumers fail when inactive",
  'C18': "lend reward / borrow interest / stable interest: non-negative, zero over zero time, monotone relative to a grid (sandwich) in time, principal and rate",
  'C19': "per-epoch split (allocations sum to the deposit, differ by at most one unit, epochs 1..8, 16 thorough); one epoch trigger of an external-reward gauge from any consistent gauge state (asks for exactly this epoch's allocation, only while active / started / epochs left, count and cumulative amount move with what was distributed); one epoch's distribution never reports or pays more than it was given; a master-pool farmer's child-pool value is the sum over his child pools. Not covered: the float share arithmetic, swap-fee gauges, external reward programs, custody of the rewards account across modules",
